@@ -21,6 +21,8 @@ the harness — the model treats phrase decoding as a parameter).
 namespace Chewing.Driver
 open Chewing
 
+namespace Legacy
+
 def splitNonEmpty (s : String) (sep : String) : List String := (s.splitOn sep).filter (· ≠ "")
 
 def sylsOf (s : String) : List Nat := if s == "-" then [] else (s.splitOn ",").map natOf
@@ -49,6 +51,9 @@ def datOf (s : String) : Option (Option Loader.DatFile) :=
   else none
 
 def uhashOf (s : String) : Option (List Nat) := if s == "-" then none else some (unhex s)
+
+end Legacy
+open Legacy
 
 def loaderExpected (fn : String) (args : List String) : Option String :=
   match fn, args with
@@ -81,6 +86,7 @@ def loaderExpected (fn : String) (args : List String) : Option String :=
   | _, _ => none
 
 /-! ### walk -/
+namespace Legacy
 
 def leafTabOf (s : String) : List ((Nat × Nat) × List String) :=
   (splitNonEmpty (s.drop 2).toString ";").filterMap fun item =>
@@ -101,6 +107,8 @@ def walkFuel : Nat := 4000
 def stdPred (n syl : Nat) : Bool := n == syl
 /-- `FuzzyPartialPrefix`: `n != 0 && Syllable::try_from(n).starts_with(syl)` -/
 def fuzzyPred (n syl : Nat) : Bool := n != 0 && startsWith n syl
+
+end Legacy
 
 def walkExpected (fn : String) (args : List String) : Option String :=
   match fn, args with
